@@ -249,7 +249,14 @@ EXTRA = {
     "C19": "Audit additions: a rejected step is a no-op on every pre-existing object and keeps the invariant (rejected_step, fail_frame_step, inv_step_any), arbitrary interleavings of accepted and rejected steps "
            "(inv_run_mixed, frame_run_rejected), which exception kind (attach_err_kind, rwith_err_kind_partial, rwith_not_internal).",
     "C20": "q4 additions: the character level of the legacy xpath constructor (lparseXPath_render / _rel, legacy_text_agrees_with_successor, lparseXPath_unknown_class_rejected), "
-           "calculate_xpath = Tree.get_xpath (calc_eq_get_xpath).",
+           "calculate_xpath = Tree.get_xpath (calc_eq_get_xpath). "
+           "s2 additions (the link to the legacy HEAP of C18): abstraction function treeOf from heap objects to tree values; for every state satisfying C18's Inv with an acyclic child graph "
+           "(Ranked) and clean parent slots (ParentClean, preserved by every step whatever its outcome: parentClean_step) -- hence after every admissible history (reachable_ok) -- and every attached node: "
+           "the parent chain read off the heap's parent pointers is THE root-first chain of the node in the represented tree (heapChain_isChain, heapChain_unique; treeOf_noRepeat), the legacy matcher run on the heap "
+           "by following parent pointers (Model/LegacyHeapWalk.lmatchH) ends and equals sat along that chain = the successor's match / findall on the represented tree (legacy_match_heap, "
+           "legacy_match_heap_successor, legacy_match_heap_text, legacy_match_heap_run; false without ParentClean: legacy_match_heap_dirty_fails), legacy dfs / bfs / gather on the heap = the successor's walks on treeOf "
+           "(heap_dfs_successor, heap_bfs_successor, heap_gather_successor), every yielded position agrees with the heap's own parent pointers (heap_items_agree), calculate_xpath on the heap = Tree.get_xpath on treeOf "
+           "(heap_calc_eq_get_xpath). Correspondence: request lhxpath replays real legacy histories on the model heap and compares match / ancestors / dfs / bfs / gather / calculate_xpath on every object.",
 }
 
 
